@@ -101,7 +101,11 @@ def shard_write_exhaustive(spec: Dict[str, Any], rec: Rec) -> None:
             for value in range(spec['part'], 1 << length, spec['parts']):
                 bits = [(value >> k) & 1 for k in range(length)]
                 dev = make()
-                for b in bits:
+                look_at = value % (length + 1) if length else 0   # the collected output is also looked at once on the way
+                for k, b in enumerate(bits):
+                    if k == look_at and length >= 2:
+                        check_written(rec, name, dev, bits[:k])
+                        rec.count('observations_mid_stream')
                     dev.write_bit(bool(b))
                 check_written(rec, name, dev, bits)
                 rec.count('sequences')
@@ -181,7 +185,7 @@ def shard_random(spec: Dict[str, Any], rec: Rec) -> None:
             expected_in = bits_of(data)
             got_in: List[int] = []
             eof_at = None
-            for b in bits:
+            for k, b in enumerate(bits):
                 if rng.random() < 0.5:
                     try:
                         got_in.append(int(dev.read_bit()))
@@ -189,6 +193,9 @@ def shard_random(spec: Dict[str, Any], rec: Rec) -> None:
                         if eof_at is None:
                             eof_at = len(got_in)
                 dev.write_bit(bool(b))
+                if rng.random() < 0.01:
+                    check_written(rec, name, dev, bits[:k + 1])
+                    rec.count('observations_mid_stream')
             rec.count('monitor_evaluations')
             if got_in != expected_in[:len(got_in)] or (eof_at is not None and eof_at != len(expected_in)):
                 rec.bad('FixedIO/input-bits', 'interleaved read/write: input bits differ',
@@ -197,7 +204,11 @@ def shard_random(spec: Dict[str, Any], rec: Rec) -> None:
             check_fixed_read(rec, data)
         else:
             dev = makers[name]()
-            for b in bits:
+            looks = {rng.randrange(n_bits + 1) for _ in range(rng.choice([0, 1, 2, 5]))}
+            for k, b in enumerate(bits):
+                if k in looks:  # "full output until now": looking does not consume or freeze anything
+                    check_written(rec, name, dev, bits[:k])
+                    rec.count('observations_mid_stream')
                 dev.write_bit(bool(b))
             check_written(rec, name, dev, bits)
         rec.count('sequences')
